@@ -175,6 +175,27 @@ def case_random_block(case):
             elif not close(cpd.value, Fr(val) * si.factor(A, Bp, d3)):
                 bad.append({"what": "value", "form": "partial dict", "A": A, "B": Bp, "dim": d3, "val": val, "got": cpd.value,
                             "expected": float(Fr(val) * si.factor(A, Bp, d3))})
+            apd = U.UnitArray([val, 2.0 * val], U.Units(mk_sys(U, A), mk_dim(U, d3))).convert(pdict)
+            if si.sys_of(apd.units.sys) != Bp:
+                bad.append({"what": "partial dictionary target (array): components left out are not the defaults", "target": pdict,
+                            "got_sys": si.sys_of(apd.units.sys), "expected_sys": Bp, "source_sys": A})
+            elif not close(float(apd.value[1]), Fr(2.0 * val) * si.factor(A, Bp, d3)):
+                bad.append({"what": "array value", "form": "partial dict", "A": A, "B": Bp, "dim": d3, "x": 2.0 * val, "got": float(apd.value[1])})
+            # extreme but finite values whose converted value is finite too (the factor is moderate although its per-kind
+            # components may be large and pull in opposite directions): no intermediate may overflow or go subnormal
+            fAB = si.factor(A, B, d3)
+            if Fr(1, 1000) < fAB < 1000 and sum(1 for e_ in d3 if e_) >= 2:
+                for big in (10.0 ** r.uniform(295, 304), 10.0 ** -r.uniform(295, 304), -(10.0 ** r.uniform(295, 304))):
+                    qx = U.UnitValue(big, U.Units(mk_sys(U, A), mk_dim(U, d3)))
+                    cx_ = qx.convert(mk_sys(U, B))
+                    stats["extreme_value_conversions"] = stats.get("extreme_value_conversions", 0) + 1
+                    ex_ = Fr(big) * fAB
+                    if not (math.isfinite(cx_.value) and abs(Fr(cx_.value) - ex_) <= abs(ex_) * Fr(1, 10 ** 11)):
+                        bad.append({"what": "value", "form": "extreme magnitude", "A": A, "B": B, "dim": d3, "val": big, "got": cx_.value,
+                                    "expected": float(ex_)})
+                    ax_ = U.UnitArray([big, 1.0], U.Units(mk_sys(U, A), mk_dim(U, d3))).convert(mk_sys(U, B))
+                    if not (math.isfinite(float(ax_.value[0])) and abs(Fr(float(ax_.value[0])) - ex_) <= abs(ex_) * Fr(1, 10 ** 11)):
+                        bad.append({"what": "array value", "form": "extreme magnitude", "A": A, "B": B, "dim": d3, "x": big, "got": float(ax_.value[0])})
             # there and back
             back = q.convert(mk_sys(U, B)).convert(mk_sys(U, A))
             stats["roundtrips"] += 1
